@@ -53,7 +53,7 @@ func getVarInt(buf []byte) (uint64, int) {
 	val := uint64(buf[ptr] & 0x7f)
 	for buf[ptr]&0x80 != 0 {
 		ptr++
-		if ptr > len(buf) {
+		if ptr >= len(buf) {
 			return 0, -1
 		}
 		val = ((val + 1) << 7) | uint64(buf[ptr]&0x7f)
@@ -179,7 +179,7 @@ func (r *RefRecord) decode(buf []byte, key string, valType uint8, hashSize int) 
 			return
 		}
 		buf = buf[s:]
-		if len(buf) < int(tsize) {
+		if uint64(len(buf)) < tsize {
 			return
 		}
 
@@ -323,6 +323,10 @@ func (r *objRecord) decode(buf []byte, prefix string, cnt3 uint8, hashSize int) 
 	if count == 0 {
 		return len(start) - len(buf), true
 	}
+	if count > uint64(len(buf)) {
+		// each offset takes at least one byte.
+		return 0, false
+	}
 
 	r.Offsets = make([]uint64, 1, count)
 	r.Offsets[0], n = getVarInt(buf)
@@ -444,11 +448,11 @@ func decodeKey(buf []byte, prevKey string) (n int, key string, value uint8, ok b
 	value = uint8(suffixLen & 0x7)
 	suffixLen = suffixLen >> 3
 
-	if int(suffixLen) > len(buf) {
+	if suffixLen > uint64(len(buf)) {
 		return
 	}
 
-	if int(prefixLen) > len(prevKey) {
+	if prefixLen > uint64(len(prevKey)) {
 		return
 	}
 
@@ -572,7 +576,7 @@ func decodeString(buf []byte) (n int, val string, ok bool) {
 		return
 	}
 	buf = buf[s:]
-	if len(buf) < int(nameLen) {
+	if uint64(len(buf)) < nameLen {
 		return
 	}
 	val = string(buf[:nameLen])
